@@ -41,6 +41,11 @@ func (b *balanceCache) Reset(expireAfter time.Duration) {
 func (b *balanceCache) Set(account store.Account, amount *big.Int) {
 	b.mu.Lock()
 	defer b.mu.Unlock()
+	b.set(account, amount)
+}
+
+// set stores a value; the caller holds the lock.
+func (b *balanceCache) set(account store.Account, amount *big.Int) {
 	if b.cache == nil {
 		b.cache = map[store.Account]balanceItem{}
 	}
@@ -75,6 +80,15 @@ func (b *balanceCache) Get(account store.Account) (*big.Int, error) {
 	if err != nil {
 		return nil, err
 	}
-	b.Set(account, val)
+
+	b.mu.Lock()
+	defer b.mu.Unlock()
+	if r, ok := b.cache[account]; ok && (r.expire.IsZero() || b.now().Before(r.expire)) {
+		// A value was stored while we were asking (a balance event, or a
+		// settlement that zeroed the deposit): our answer may predate it and
+		// must not overwrite it.
+		return r.value, nil
+	}
+	b.set(account, val)
 	return val, nil
 }
